@@ -50,7 +50,7 @@ pub fn large_intra(rng: &mut Rng, cfg: &PicCfg) -> SymPicture {
     for _ in 0..10 {
         special.push(rng.below(n as u64) as usize);
     }
-    for t in [1023usize, 1024, 4095, 4096, 8191, 8192, 16383, 16384, 32767, 32768] {
+    for t in [1023usize, 1024, 2047, 2048, 2049, 4095, 4096, 8191, 8192, 16383, 16384, 32767, 32768] {
         if t < n {
             special.push(t);
         }
@@ -97,7 +97,7 @@ pub fn large_inter(rng: &mut Rng, cfg: &PicCfg, disposable: bool, truncate: Opti
     for _ in 0..10 {
         special.push(rng.below(n as u64) as usize);
     }
-    for t in [1023usize, 1024, 4095, 4096, 4097, 8191, 8192, 8193, 16383, 16384, 32767, 32768] {
+    for t in [1023usize, 1024, 2047, 2048, 2049, 4095, 4096, 4097, 8191, 8192, 8193, 16383, 16384, 32767, 32768] {
         if t < n {
             special.push(t);
         }
